@@ -159,7 +159,8 @@ fn item_texts(it: &Value) -> Vec<String> {
                 ("str", "digits") => vec!["\"17\"", "\"42\""],
                 ("str", "float") => vec!["\"1.5\"", "\"2e3\"", "\"-0.0\"", "\"inf\"", "\"NaN\""],
                 ("str", "one_char") => vec!["\"x\"", "\"\u{e9}\"", "r#\"\"\"#"],
-                ("str", "multi") => vec!["\"xy\"", "\"hello world\"", "r#\"a \"q\" b\"#"],
+                // also a long value whose 64th byte falls inside a multi-byte character (an error that echoes the value must not cut it there)
+                ("str", "multi") => vec!["\"xy\"", "\"hello world\"", "r#\"a \"q\" b\"#", "\"xxxxxxxxxxxxxxxxxxxxxxxxxxxxxxxxxxxxxxxxxxxxxxxxxxxxxxxxxxxxxxx\u{e9}\u{e9}\u{e9} tail\""],
                 ("str", "empty") => vec!["\"\""],
                 x => panic!("{:?}", x),
             };
